@@ -164,6 +164,7 @@ def run(ctx):
 
     _tailcall(ctx)
     clean_pass(ctx, "C02.R8")
+    dominance_frontier(ctx, "C02.R9")
 
 
 def _tailcall(ctx):
@@ -276,3 +277,44 @@ def iterates_distinct(fn, it):
         ok = ok and len(inits) == 1 and norm(inits[0].value) in ("[]", "set()", "OrderedSet()")
         return ok, det + (" (filled by %s)" % "; ".join(" ".join(norm(a).split())[:40] for a in apps) if apps else "")
     return False, det
+
+
+def dominance_frontier(ctx, rid):
+    """mem2reg places phis on the iterated dominance frontier of the defining blocks.  DF(x) = { y : x dominates a
+    predecessor of y but does not STRICTLY dominate y } (Cytron et al.): a loop header is in its own frontier."""
+    G = "ppci/graph/cfg.py"
+    ctx.rule(rid, "dominance frontier (Cytron): bottom-up over the dominator tree; a successor y of x (local) or a member y of a child's frontier (up) belongs to DF(x) unless x is y's immediate dominator - a test that is false for y == x, so a loop header is in its own frontier", floor=5)
+    fn = ctx.fn(G, "ControlFlowGraph.calculate_dominance_frontier")
+    site = G + ":ControlFlowGraph.calculate_dominance_frontier"
+    outer = [l for l in walk_no_nested(fn) if isinstance(l, ast.For) and "bottom_up" in norm(l.iter)]
+    ctx.need(len(outer) == 1, "calculate_dominance_frontier: bottom-up loop not found")
+    x = norm(outer[0].target)
+    init = [n for n in outer[0].body if isinstance(n, ast.Assign) and norm(n.targets[0]) == "self.df[%s]" % x and norm(n.value) in ("set()", "OrderedSet()")]
+    ctx.ob(rid, site, "children are finished before their parent (bottom-up walk of the dominator tree) and every frontier starts empty", len(init) == 1 and "self.root_tree" in norm(outer[0].iter), construct="bottom-up")
+    adds = [c for c in ast.walk(outer[0]) if isinstance(c, ast.Call) and norm(c.func) == "self.df[%s].add" % x]
+    from ..sym import conjuncts
+    def not_strictly_dominated(c, y):
+        conds = [(" ".join(norm(t).split()), pol) for t, pol in conjuncts(c, fn, {})]
+        good = {("self.get_immediate_dominator(%s) != %s" % (y, x), True), ("self.get_immediate_dominator(%s) == %s" % (y, x), False), ("%s != self.get_immediate_dominator(%s)" % (x, y), True),
+                ("self.strictly_dominates(%s, %s)" % (x, y), False), ("self.get_immediate_dominator(%s) is not %s" % (y, x), True), ("self.get_immediate_dominator(%s) is %s" % (y, x), False)}
+        return len(conds) == 1 and conds[0] in good, conds
+    loc = [c for c in adds if any(isinstance(a, ast.For) and norm(a.iter) == "self.successors(%s)" % x for a in _anc(c))]
+    up = [c for c in adds if any(isinstance(a, ast.For) and norm(a.iter) == "self.children(%s)" % x for a in _anc(c))]
+    ok, det = (False, "")
+    if len(loc) == 1:
+        lp = [a for a in _anc(loc[0]) if isinstance(a, ast.For)][0]
+        y = norm(lp.target)
+        ok, det = not_strictly_dominated(loc[0], y)
+        ok = ok and norm(loc[0].args[0]) == y
+    ctx.ob(rid, site, "local rule: a successor y of x is in DF(x) exactly when idom(y) is not x", ok, construct="local-rule", detail=str(det))
+    ok, det = (False, "")
+    if len(up) == 1:
+        loops = [a for a in _anc(up[0]) if isinstance(a, ast.For)]
+        inner, mid = loops[0], loops[1]
+        y, z = norm(inner.target), norm(mid.target)
+        ok, det = not_strictly_dominated(up[0], y)
+        ok = ok and norm(inner.iter) == "self.df[%s]" % z and norm(up[0].args[0]) == y
+    ctx.ob(rid, site, "up rule: a member y of DF(z), z a child of x in the dominator tree, is in DF(x) exactly when idom(y) is not x (the non-strict `dominates(x, y)` would drop y == x: the header of a multi-block loop)", ok, construct="up-rule", detail=str(det))
+    ctx.ob(rid, site, "nothing else adds to or removes from a frontier", len(adds) == 2 and not any(isinstance(c, ast.Call) and isinstance(c.func, ast.Attribute) and c.func.attr in ("remove", "discard", "clear", "pop") for c in ast.walk(fn)), construct="only-two-rules")
+    ch = ctx.fn(G, "ControlFlowGraph.children")
+    ctx.ob(rid, G + ":ControlFlowGraph.children", "children(n) are the nodes of the dominator-tree children of n", "self.tree_map[n]" in norm(ch).replace(ch.args.args[1].arg, "n") and ".children" in norm(ch), construct="tree-children")
